@@ -216,10 +216,12 @@ type didState struct {
 	rec     *keyPair
 	kinds   []string
 	nextSvc int
+	spare   bool // keys whose coordinates are spelled with spare bits set
 }
 
 func (d *didState) newKey() *keyPair {
 	k := genKey(d.r, d.kinds[d.r.Intn(len(d.kinds))])
+	k.spare = d.spare
 	if d.r.Intn(4) == 0 {
 		n := make([]byte, d.cfg.NonceSize)
 		rngReader{d.r}.Read(n)
@@ -291,24 +293,24 @@ var commonSigned = []string{"", "", "", "sig_bitflip", "payload_reencoded", "key
 	"sig_truncated", "sig_extended", "sig_by_other_key", "key_subst_resigned", "key_subst_resigned_old_reveal", "reveal_substituted",
 	"reveal_unconfigured_alg", "reveal_truncated_digest", "reveal_respelled", "extra_header", "alg_not_allowed", "alg_missing", "curve_not_allowed", "nonce_wrong_size",
 	"malformed_json", "missing_did_suffix", "missing_signed_data", "absent_did_suffix", "absent_reveal_value", "absent_signed_data", "absent_type",
-	"alg_other_case", "header_duplicate_member_no_resign", "header_null_member_no_resign", "jws_trailing_segment", "payload_respelled_no_resign", "jws_two_parts", "jws_empty_sig", "payload_not_json",
-	"json_type_member_differs", "early", "late", "at_from", "at_until", "at_default_until", "after_default_until", "until_only", "inverted_window", "negative_until", "negative_from"}
+	"alg_other_case", "header_duplicate_member_no_resign", "header_null_member_no_resign", "jws_trailing_segment", "jws_segment_padded", "payload_respelled_no_resign", "jws_two_parts", "jws_empty_sig", "payload_not_json",
+	"json_type_member_differs", "request_padded", "early", "late", "at_from", "at_until", "at_default_until", "after_default_until", "until_only", "until_only_far", "inverted_window", "negative_until", "negative_from"}
 
 var deltaMuts = []string{"delta_substituted", "delta_no_patches", "delta_disabled_action", "delta_invalid_patch",
-	"delta_oversize", "delta_bad_update_commitment", "delta_missing", "delta_missing_hash_of_null", "compose_fails",
+	"delta_oversize", "delta_bad_update_commitment", "update_commitment_mh_extra_octet", "update_commitment_mh_short_digest", "delta_missing", "delta_missing_hash_of_null", "compose_fails",
 	"signed_delta_hash_unconfigured_alg", "delta_hash_truncated", "delta_hash_respelled", "delta_invalid_patch_after_valid_same_action", "big_request", "rotate_nonce_only", "delta_at_size_limit_html", "delta_rewritten_no_resign_concurrent"}
 
 func mutationsFor(typ string) []string {
 	switch typ {
 	case "create":
-		return []string{"", "", "malformed_json", "missing_suffix_data", "recovery_commitment_not_mh", "delta_hash_not_mh",
+		return []string{"", "", "malformed_json", "missing_suffix_data", "recovery_commitment_not_mh", "recovery_commitment_mh_extra_octet", "recovery_commitment_mh_short_digest", "delta_hash_not_mh", "delta_hash_mh_extra_octet",
 			"delta_substituted", "delta_no_patches", "delta_disabled_action", "delta_invalid_patch", "delta_oversize",
-			"delta_bad_update_commitment", "delta_missing", "delta_missing_hash_of_null", "compose_fails",
-			"json_type_member_differs", "origin_object", "origin_string", "delta_hash_truncated", "delta_hash_respelled", "delta_invalid_patch_after_valid_same_action", "big_request", "rotate_nonce_only", "delta_at_size_limit_html"}
+			"delta_bad_update_commitment", "update_commitment_mh_extra_octet", "update_commitment_mh_short_digest", "delta_missing", "delta_missing_hash_of_null", "compose_fails",
+			"json_type_member_differs", "request_padded", "origin_object", "origin_string", "delta_hash_truncated", "delta_hash_respelled", "delta_invalid_patch_after_valid_same_action", "big_request", "rotate_nonce_only", "delta_at_size_limit_html"}
 	case "update":
 		return append(append([]string{}, commonSigned...), deltaMuts...)
 	case "recover":
-		return append(append(append([]string{}, commonSigned...), deltaMuts...), "key_reuse", "recovery_commitment_not_mh", "origin_object")
+		return append(append(append([]string{}, commonSigned...), deltaMuts...), "key_reuse", "recovery_commitment_not_mh", "recovery_commitment_mh_extra_octet", "recovery_commitment_mh_short_digest", "origin_object")
 	case "deactivate":
 		return append(append([]string{}, commonSigned...), "signed_suffix_mismatch", "signed_suffix_missing", "recover_payload_replayed", "extra_signed_commitments",
 			"signed_reveal_own_outer_other", "signed_reveal_attacker", "signed_reveal_same")
@@ -387,6 +389,9 @@ func (d *didState) buildOp(typ, mut string, t uint64, cfg *protocol.Protocol) bu
 	case "delta_bad_update_commitment":
 		delta["updateCommitment"] = "abc"
 		v.DeltaValid = false
+	case "update_commitment_mh_extra_octet", "update_commitment_mh_short_digest": // begins like a multihash of the configured algorithm, but is none
+		delta["updateCommitment"] = malformMultihash(delta["updateCommitment"].(string), mut)
+		v.DeltaValid = false
 	case "delta_oversize":
 		cfg.MaxDeltaSize = uint(len(jcs(delta)) - 1)
 		v.DeltaValid = false
@@ -410,6 +415,10 @@ func (d *didState) buildOp(typ, mut string, t uint64, cfg *protocol.Protocol) bu
 		deltaHash = "notAMultihash"
 		v.ParseOK = false
 	}
+	if mut == "delta_hash_mh_extra_octet" && typ == "create" {
+		deltaHash = malformMultihash(deltaHash, mut)
+		v.ParseOK = false
+	}
 
 	var from, until int64
 	delta0 := int64(cfg.MaxOperationTimeDelta)
@@ -429,6 +438,8 @@ func (d *didState) buildOp(typ, mut string, t uint64, cfg *protocol.Protocol) bu
 		from, until = ti-delta0-1, 0
 	case "until_only":
 		from, until = 0, ti+int64(r.Intn(3))-1
+	case "until_only_far": // until-only, anchored long before the bound (more than the allowed delta): effective, there is no lower bound
+		from, until = 0, ti+delta0+1+int64(r.Intn(100000))
 	case "negative_until": // until-only with a negative bound: never effective
 		from, until = 0, -1-int64(r.Intn(100))
 	case "negative_from": // a negative from with a future (or defaulted) until: effective
@@ -496,6 +507,10 @@ func (d *didState) buildOp(typ, mut string, t uint64, cfg *protocol.Protocol) bu
 			sd["recoveryCommitment"] = "xyz"
 			v.ParseOK = false
 		}
+		if mut == "recovery_commitment_mh_extra_octet" || mut == "recovery_commitment_mh_short_digest" {
+			sd["recoveryCommitment"] = malformMultihash(sd["recoveryCommitment"].(string), mut)
+			v.ParseOK = false
+		}
 		v.RecoveryC = sd["recoveryCommitment"].(string)
 		v.Origin = origin
 		op.suffixData = sd
@@ -524,6 +539,10 @@ func (d *didState) buildOp(typ, mut string, t uint64, cfg *protocol.Protocol) bu
 		}
 		if mut == "recovery_commitment_not_mh" {
 			payload["recoveryCommitment"] = "xyz"
+			v.ParseOK = false
+		}
+		if mut == "recovery_commitment_mh_extra_octet" || mut == "recovery_commitment_mh_short_digest" {
+			payload["recoveryCommitment"] = malformMultihash(payload["recoveryCommitment"].(string), mut)
 			v.ParseOK = false
 		}
 		v.RecoveryC = payload["recoveryCommitment"].(string)
@@ -706,6 +725,18 @@ func (d *didState) buildOp(typ, mut string, t uint64, cfg *protocol.Protocol) bu
 		case "jws_trailing_segment": // something behind the signature segment: not a compact JWS
 			parts = append(parts, []string{"", "AAAA", parts[2]}[r.Intn(3)])
 			v.ParseOK = false
+		case "jws_segment_padded": // base64url with its "=" padding on every segment that has any: not a compact JWS
+			any := false
+			for k := range parts {
+				if pad := (4 - len(parts[k])%4) % 4; pad > 0 {
+					parts[k] += strings.Repeat("=", pad)
+					any = true
+				}
+			}
+			if !any { // every segment a multiple of four characters: pad an empty group instead
+				parts[2] += "===="
+			}
+			v.ParseOK = false
 		case "kid_added_no_resign":
 			h2 := map[string]interface{}{"alg": signer.alg, "kid": "added"}
 			parts[0] = b64(jcs(h2))
@@ -801,6 +832,15 @@ func (d *didState) buildOp(typ, mut string, t uint64, cfg *protocol.Protocol) bu
 			}
 		}
 	}
+	if mut == "request_padded" { // the same request with insignificant white space (indented, a line feed at the end): as valid as before
+		var buf bytes.Buffer
+		if json.Indent(&buf, bs, "", "  ") == nil && uint(buf.Len()+1) <= cfg.MaxOperationSize {
+			buf.WriteString("\n")
+			bs = buf.Bytes()
+		} else if uint(len(bs)+3) <= cfg.MaxOperationSize {
+			bs = append(append([]byte(" "), bs...), ' ', '\n')
+		}
+	}
 	if mut == "malformed_json" {
 		bs = bs[:len(bs)-1-r.Intn(len(bs)/2)]
 		v.ParseOK = false
@@ -822,6 +862,19 @@ func (d *didState) buildOp(typ, mut string, t uint64, cfg *protocol.Protocol) bu
 }
 
 func b64dec(s string) ([]byte, error) { return b64raw.DecodeString(s) }
+
+// malformMultihash: the octets of a well-formed multihash with one octet more behind the digest, or
+// with the last digest octet missing (the length prefix still announcing the full digest)
+func malformMultihash(h string, mut string) string {
+	raw, err := b64dec(h)
+	if err != nil || len(raw) < 4 {
+		return h + "A"
+	}
+	if strings.HasSuffix(mut, "_extra_octet") {
+		return b64(append(append([]byte{}, raw...), 0))
+	}
+	return b64(raw[:len(raw)-1])
+}
 
 // respell returns another string that the lenient base64url decoder maps to the same octets:
 // spare trailing bits changed when the length leaves any, otherwise a line feed inserted.
@@ -1005,7 +1058,7 @@ func mutationPool(focus, typ string) []string {
 	case "window":
 		for _, m := range muts {
 			switch m {
-			case "", "early", "late", "at_from", "at_until", "at_default_until", "after_default_until", "until_only", "inverted_window", "negative_until", "negative_from", "compose_fails":
+			case "", "early", "late", "at_from", "at_until", "at_default_until", "after_default_until", "until_only", "until_only_far", "inverted_window", "negative_until", "negative_from", "compose_fails":
 				pool = append(pool, m)
 			}
 		}
